@@ -331,7 +331,28 @@ where
         ));
     }
     let last = it.len();
-    let cnt = it.count();
+    // the rest of the iterator is consumed through a different provided method each time (`count`, `fold`, `for_each`,
+    // `rfold`, `sum` over `map`, `last`): an iterator that overrides one of them must still visit exactly `len()` items
+    let cnt = match script.len() % 6 {
+        0 => it.count(),
+        1 => it.fold(0usize, |n, _| n + 1),
+        2 => {
+            let mut n = 0usize;
+            it.for_each(|_| n += 1);
+            n
+        }
+        3 => it.rfold(0usize, |n, _| n + 1),
+        4 => it.map(|_| 1usize).sum(),
+        _ => {
+            // `last()` visits everything; what it returns must exist exactly when something was left
+            let had = it.len();
+            match it.last() {
+                Some(_) if had > 0 => had,
+                None if had == 0 => 0,
+                _ => usize::MAX,
+            }
+        }
+    };
     format!("[{}] count={}{}", parts.join(" "), cnt, if cnt == last { "" } else { "!" })
 }
 
